@@ -197,6 +197,7 @@ type Exec struct {
 	crossChecked, crossUnknown, crossDisagree int
 	rangeExcluded int
 	timerObjs     map[*Cell]*Timer
+	condObjs      map[*Cell]*condState
 	assertInherited int
 	pcSet         map[*Term]bool
 }
